@@ -1157,10 +1157,11 @@ impl<'a> Parser<'a> {
 
     let mut segments: Vec<StringSegments> = self.vec();
     loop {
-      if segments.len() == u16::MAX as usize {
+      // the start and end of the string are counted along with the segments
+      if segments.len() + 2 > u16::MAX as usize {
         return self.error(&format!(
           "Cannot have more than {} segments in a string interpolation",
-          segments.len()
+          u16::MAX as usize - 2
         ));
       }
 
